@@ -92,6 +92,7 @@ func main() {
 			run.Inc("histories_stopped_at_first_violation")
 		}
 	})
+	os.RemoveAll(tmp) // (Finish exits the process: deferred calls do not run)
 	run.Assume("script validity of generated inputs is ground truth by construction (chainsim signer); confirmed state = the node's own UTXO dump; tx fields, ids, sizes come from /verif/ref/reftx")
 	run.Assume("transactions whose script fails by construction are submitted through the untrusted network path only: the trusted-peer and the local path skip script verification by design, and chain.TrustedTxChecker then lets a block with such a tx pass")
 	run.Assume("64-bit index collisions (BIDX / UIdx truncations of txids) are not generated")
